@@ -42,9 +42,28 @@ def run_rule(rule, ctx, tier):
     return done[rule]
 
 
+# Properties whose behaviour rests on another property's clauses: a finding of the foundation property is a finding of
+# the dependent one as well (a download cannot leave "exactly the client's bytes" when the dictionary lookup misses the
+# object, the dispatcher routes the frame elsewhere or the server is wedged; the heartbeat cannot be exact when the timer
+# manager drops actions).  The dependent check runs the foundation's rules too and reports their findings as
+# "via <foundation>".
+DEPENDS = {
+    'C02': ['C04', 'C05', 'C06'],
+    'C03': ['C04', 'C05', 'C06'],
+    'C04': ['C06'],
+    'C10': ['C08'],
+    'C11': ['C08'],
+    'C12': ['C08', 'C06'],
+    'C13': ['C06'],
+    'C14': ['C06'],
+    'C16': ['C08'],
+    'C19': ['C08'],
+}
+
+
 PROPERTIES = {
     'C01': {
-        'rules': ['RF6', 'RF5', 'SDO', 'TMR', 'CSDO', 'SDO2', 'RF7'],
+        'rules': ['RF6', 'RF5', 'SDO', 'TMR', 'CSDO', 'SDO2', 'RF7', 'PDOCFG'],
         'technique': 'interval abstract interpretation (widening/narrowing, guard refinement, parameter and field '
                      'invariants) for every constant-extent subscript; non-null dataflow with bounded disjunction for every '
                      'dereference of a nullable location; guard-before-use for SDO continuation handlers',
@@ -73,7 +92,7 @@ PROPERTIES = {
                        'shape argument',
     },
     'C08': {
-        'rules': ['RF4', 'RF5', 'TMR'],
+        'rules': ['RF4', 'RF5', 'TMR', 'RESET'],
         'technique': 'lock-depth dataflow over co_tmr.c (helpers inherit the depth of all call sites); non-null '
                      'dataflow with bounded disjunction over the timer list heads and links',
         'explanation': 'RF4: lock/unlock balanced on every path, every store to a list head or event link and every load of '
